@@ -161,7 +161,11 @@ void run_case(Ctx& c) {
     cfg.identity_seed = 34;
     cfg.announce_pow_difficulty = 0;
     cfg.handshake_pow_difficulty = 0;
-    cfg.control_host = "127.0.0.1";
+    // the operator's control host: loopback (default), or a routable-looking address / name (then a local-fallback
+    // candidate exists besides whatever STUN reports)
+    static const char* kControlHosts[] = {"127.0.0.1", "127.0.0.1", "93.184.216.34", "node.example.org"};
+    cfg.control_host = kControlHosts[t.h(12) % 4];
+    if (t.h(12) % 4 >= 2) c.label("routable_looking_control_host");
     cfg.advertise_allow_private = allow_private;
     cfg.advertise_auto_mode = mode == 0 ? Config::AdvertiseAutoMode::On : mode == 1 ? Config::AdvertiseAutoMode::Warn : Config::AdvertiseAutoMode::Off;
     if (manual_present) cfg.advertised_endpoints.push_back(Config::AdvertisedEndpoint{"relay.example.net", 4100, true, "manual"});
